@@ -390,7 +390,15 @@ class Inliner:
             return None
         self.inline_function(h, depth + 1)
         gen = _is_generator(h.node)
-        if gen != (kind in ("yieldfrom", "forgen", "collect", "withcm")):
+        returns_iterable = False
+        if kind == "yieldfrom" and not gen:
+            # `yield from helper(...)` where the helper is an ordinary function that returns the iterable (`return itertools.chain(...)`):
+            # spliced with its final `return E` read as `yield from E`
+            hb = _body_without_doc(h.node)
+            rets = [n for n in _walk_own(h.node) if isinstance(n, ast.Return)]
+            if hb and isinstance(hb[-1], ast.Return) and hb[-1].value is not None and len(rets) == 1:
+                returns_iterable = True
+        if gen != (kind in ("yieldfrom", "forgen", "collect", "withcm")) and not returns_iterable:
             return None
         if kind == "withcm":
             # `with helper(): BODY` for a @contextmanager helper runs BODY at the helper's single yield
@@ -510,6 +518,9 @@ class Inliner:
             visit_Lambda = visit_FunctionDef
 
             def visit_Return(self, r: ast.Return) -> ast.AST:
+                if returns_iterable:
+                    return ast.copy_location(ast.Expr(value=ast.copy_location(ast.YieldFrom(value=r.value), r)), r)
+
                 def jump(v: ast.expr) -> ast.Assign:
                     a = ast.Assign(targets=[ast.Name(id=ret_name, ctx=ast.Store())], value=v)
                     a._xsa_jump = k  # type: ignore[attr-defined]
@@ -1619,6 +1630,9 @@ def _operator_call(c: ast.Call) -> ast.expr:
         return ast.Compare(left=c.args[1], ops=[ast.In()], comparators=[c.args[0]])
     if name == "not_" and len(c.args) == 1:
         return ast.UnaryOp(op=ast.Not(), operand=c.args[0])
+    arith = {"mul": ast.Mult, "add": ast.Add, "sub": ast.Sub, "floordiv": ast.FloorDiv, "mod": ast.Mod}
+    if name in arith and len(c.args) == 2:
+        return ast.BinOp(left=c.args[0], op=arith[name](), right=c.args[1])
     return c
 
 
@@ -1644,6 +1658,7 @@ class _GetterCalls(ast.NodeTransformer):
         self.local_displays: dict[str, ast.expr] = {}
         self.local_partials: dict[str, ast.Call] = {}
         self.local_callables: dict[str, ast.Call] = {}
+        self.module_displays: dict[str, ast.expr] = {}
         self.count = 0
         self.k = 0
 
@@ -1733,6 +1748,27 @@ class _GetterCalls(ast.NodeTransformer):
                 new = ast.GeneratorExp(elt=elt, generators=[ast.comprehension(target=target, iter=xs, ifs=ifs, is_async=0)])
                 return ast.fix_missing_locations(ast.copy_location(new, c))
         # any(P(x) for x in (a, b, c)) is P(a) or P(b) or P(c); all(...) is the conjunction
+        # map(f, (a, b), (x, y)) over displays of equal length is the display (f(a, x), f(b, y)); sum((p, q, r)) is p + q + r
+        def _disp(e: ast.expr) -> ast.expr | None:
+            if isinstance(e, ast.Name) and e.id in self.local_displays:
+                e = self.local_displays[e.id]
+            elif isinstance(e, ast.Name) and e.id in self.module_displays and e.id not in self.local_names:
+                e = self.module_displays[e.id]
+            return e if isinstance(e, (ast.Tuple, ast.List)) and not any(isinstance(x, ast.Starred) for x in e.elts) else None
+
+        if isinstance(c.func, ast.Name) and c.func.id == "map" and "map" not in self.local_names and len(c.args) == 3 and not c.keywords and isinstance(c.args[0], (ast.Name, ast.Attribute)):
+            da, db = _disp(c.args[1]), _disp(c.args[2])
+            if da is not None and db is not None and len(da.elts) == len(db.elts) and 1 <= len(da.elts) <= 10 and all(_simple_arg(x) for x in [*da.elts, *db.elts]):
+                elts = [_operator_call(ast.Call(func=copy.deepcopy(c.args[0]), args=[copy.deepcopy(x), copy.deepcopy(y)], keywords=[])) for x, y in zip(da.elts, db.elts)]
+                self.count += 1
+                return ast.fix_missing_locations(ast.copy_location(ast.Tuple(elts=elts, ctx=ast.Load()), c))
+        if isinstance(c.func, ast.Name) and c.func.id == "sum" and "sum" not in self.local_names and len(c.args) == 1 and not c.keywords and isinstance(c.args[0], (ast.Tuple, ast.List)) \
+                and 1 <= len(c.args[0].elts) <= 10 and not any(isinstance(x, ast.Starred) for x in c.args[0].elts):
+            new = c.args[0].elts[0]
+            for v in c.args[0].elts[1:]:
+                new = ast.BinOp(left=new, op=ast.Add(), right=v)
+            self.count += 1
+            return ast.fix_missing_locations(ast.copy_location(new, c))
         # (likewise sum(E(x) for x in (a, b, c)) is E(a) + E(b) + E(c), also with tuple targets over a display of tuples)
         if isinstance(c.func, ast.Name) and c.func.id in ("any", "all", "sum") and c.func.id not in self.local_names and len(c.args) == 1 and not c.keywords \
                 and isinstance(c.args[0], (ast.GeneratorExp, ast.ListComp)) and len(c.args[0].generators) == 1:
@@ -1959,6 +1995,7 @@ def normalize_conditionals(repo: "Repo") -> int:
                                                                                      for a in [*v.args[1:], *[k.value for k in v.keywords]])
             return _getter_of(v) is not None and len(v.args) == 1
 
+        gc.module_displays = {k: v for k, v in fi.module.globals.items() if isinstance(v, (ast.Tuple, ast.List))}
         gc.local_callables = {x.targets[0].id: x.value for x in _walk_own(fi.node) if isinstance(x, ast.Assign) and len(x.targets) == 1 and isinstance(x.targets[0], ast.Name)
                               and sto.get(x.targets[0].id) == 1 and x.targets[0].id not in _params and _opcallable(x.value)}
         fi.node.body = _apply(gc, fi.node.body)
@@ -1984,7 +2021,7 @@ def normalize_conditionals(repo: "Repo") -> int:
         c = inline_condition_temps(fi.node)
         if "next" in names_used and ast.GeneratorExp in kinds:
             c += next_to_loops(fi.node)
-        if ast.GeneratorExp in kinds and ast.For in kinds:
+        if ast.GeneratorExp in kinds and (ast.For in kinds or "next" in names_used):
             c += genexp_loops(fi.node)
         if ast.Tuple in kinds:
             c += scalarize_tuple_temps(fi.node)
@@ -2089,7 +2126,17 @@ def lazy_generator_temps(repo: "Repo", fi: "FuncInfo") -> int:
             for b in use_stmts[i + 1:]:
                 common = next((x for x in chain_to(a) if isinstance(x, ast.If) and any(x is y for y in chain_to(b))), None)
                 if common is None or arm(common, a) == arm(common, b):
-                    ok = False
+                    # not two arms of one `if`: still exclusive when neither use can run after the other without the binding running
+                    # again in between (an early return / the jump of a spliced helper separates them)
+                    from .cfg import build_cfg
+                    for attr in ("_xsa_cfg",):
+                        if hasattr(fn, attr):
+                            delattr(fn, attr)
+                    g_ = build_cfg(fn)
+                    na, nb, nd = g_.node_of(a), g_.node_of(b), g_.node_of(st)
+                    if na is None or nb is None or nd is None or nb.id in g_.reachable([m for m, _ in g_.succ[na.id]], blocked=[nd.id]) \
+                            or na.id in g_.reachable([m for m, _ in g_.succ[nb.id]], blocked=[nd.id]):
+                        ok = False
         if not ok:
             continue
         # the binding statement goes away; the call is evaluated at the (single executed) use
@@ -2129,6 +2176,11 @@ def inline_private_helpers(repo: "Repo") -> dict:
         for q in list(inl.introduced):
             fi = repo.functions.get(q)
             if fi is not None:
+                yy = _YieldFromDisplay()
+                fi.node.body = _apply(yy, fi.node.body)
+                if yy.count:
+                    ast.fix_missing_locations(fi.node)
+                    post += yy.count
                 post += scalarize_tuple_temps(fi.node)
                 post += unroll_display_loops(fi.node, {k: v for k, v in fi.module.globals.items() if isinstance(v, (ast.Tuple, ast.List))})
                 post += propagate_attr_aliases(fi.node, names_only=True)
